@@ -685,8 +685,8 @@ class PSOGA(SwarmAlgorithm):
             # ToDo: Make it clean
             offspring1 = IndividualSwarm(vector1)
             offspring2 = IndividualSwarm(vector2)
-            offspring1.features = first_selected.features
-            offspring2.features = second_selected.features
+            offspring1.features = copy(first_selected.features)
+            offspring2.features = copy(second_selected.features)
             offsprings.append(offspring1)
             offsprings.append(offspring2)
 
